@@ -188,9 +188,8 @@ func TensorFromProto(tp *TensorProto) (tensor.Tensor, error) {
 		values, err = getDoubleData(tp)
 	case typeMap["BOOL"]:
 		values = getBoolData(tp)
-	default:
-		// At this moment the datatype is either UNDEFINED or some datatype we currently
-		// do not support.
+	case typeMap["UNDEFINED"]:
+		// No datatype was given: fall back on whichever typed field is populated.
 		switch {
 		case len(tp.FloatData) > 0:
 			values, err = getFloatData(tp)
@@ -205,6 +204,11 @@ func TensorFromProto(tp *TensorProto) (tensor.Tensor, error) {
 		default:
 			return nil, ErrInvalidType
 		}
+	default:
+		// A datatype we currently do not support (FLOAT16, BFLOAT16, STRING, COMPLEX64,
+		// COMPLEX128). The typed fields of such a tensor hold bit patterns or packed
+		// values of that type, they can not be loaded as if they were int32, uint64, ...
+		return nil, ErrInvalidType
 	}
 
 	if err != nil {
